@@ -233,10 +233,15 @@ def o_c01(rec):
         x = e["x"]
         info["boundary_events"] += 1
         if not inside(x):
+            fin = np.concatenate([lb[np.isfinite(lb)], ub[np.isfinite(ub)]])
+            huge = fin.size and float(np.max(np.abs(fin))) >= 1e150
+            scaled = bool(completed_options(rec).get("scale"))
+            mech = "nan_point_huge_scaled_box" if (
+                huge and scaled and np.any(np.isnan(x))) else None
             out.append(V("A.user_point_outside",
                          f"{e['t']} call #{e['seq']} at x={x.tolist()} outside "
                          f"[{lb.tolist()}, {ub.tolist()}]",
-                         kind=e["t"], x=x, lb=lb, ub=ub))
+                         kind=e["t"], x=x, lb=lb, ub=ub, mechanism=mech))
             break
         with np.errstate(invalid="ignore"):
             near = np.minimum(np.abs(x - lb), np.abs(ub - x)) <= 1e-9 * np.maximum(width, 1e-300)
